@@ -1,5 +1,5 @@
 import SaModel.Props.C03
-import SaModel.Props.C01
+import SaModel.Props.C01Obs
 import SaModel.Props.C02
 import SaModel.Lemmas.C03Read
 import SaModel.Lemmas.C03ReadUtf8
@@ -10,8 +10,10 @@ C03 → C02 bridge: arrays that serde_arrow BUILDS satisfy everything the reader
 
 The read-back theorems (`Props.C02.read_any_decode`, `read_typed_decode`) carry three reader-side preconditions:
 `Read.new Fixes.all a = ok ()` (the reader can be constructed), `Read.physical a` (lengths representable),
-`Read.utf8Ok lv` (decoded strings are valid UTF-8).  Here they are DERIVED from `Spec.WF` — which `C03_wf` proves of every
-array `to_marrow` returns — and composed with `Props.C01.C01_build_decode`:
+`Read.utf8Ok lv` (decoded strings are valid UTF-8).  Here they are DERIVED from `Spec.WF` — which `C03_wf'` proves of every
+array `to_marrow` returns — and composed with `Props.C01.C01_build_decode'` (the hidden-rows refinement, Props/C01Obs.lean:
+NO `Safe` hypothesis; the theorems that have `coveredF` among their hypotheses carry nothing in its place, the two that do
+not — `toMarrow_readable`, `toMarrow_physical_partial` — carry exactly the hypothesis of `C03_wf'`, `Safe ∨ coveredF`):
 
   wf_new              WF f a, `readableDT f.dataType`      ⇒  Read.new Fixes.all a = ok ()
   wf_utf8             WF f a, decodeAt a i = ok lv          ⇒  utf8Ok lv                       (no further hypothesis)
@@ -76,13 +78,15 @@ theorem wf_dict_values_not_null (f : Field) (ks : Arr) (ty : BytesTy) (b : Bits)
 
 /-! ### the arrays `to_marrow` returns are readable -/
 
-/-- **`toMarrow_readable`**.  Under the hypotheses of `C03_wf` and for a schema the reader supports (`readableDT`), every
+/-- **`toMarrow_readable`**.  Under the hypotheses of `C03_wf'` and for a schema the reader supports (`readableDT`), every
 array `to_marrow` returns is accepted by `ArrayDeserializer::new`, holds `rows.length` rows as far as the reader is
 concerned (`ViewExt::len`), decodes to valid UTF-8 only, and — for types without FixedSizeList / Dictionary — has
-representable lengths. -/
+representable lengths.  `hsafe` is the hypothesis of `Props.C01.C03_wf'`: `Safe` OR `coveredF` (both decidable on the
+schema; what is excluded is a dictionary with NON-nullable keys and a value type other than Utf8 / LargeUtf8 below a
+nullable struct / fixed-size list).  The composed theorems below have `coveredF` anyway and carry no `Safe`. -/
 theorem toMarrow_readable (ext : Ext) (fields : List Field) (rows : List SVal) (arrs : List Arr)
     (hschema : ∀ f ∈ fields, Lemmas.C03.SchemaOKF f)
-    (hsafe : ∀ root0, newRoot fields = .ok root0 → Safe root0)
+    (hsafe : (∀ root0, newRoot fields = .ok root0 → Safe root0) ∨ fields.all Build.coveredF = true)
     (hext : Lemmas.C03.ExtOK ext)
     (hrows : ∀ x ∈ rows, Lemmas.C03.SValOK x)
     (hread : ∀ f ∈ fields, readableDT f.dataType = true)
@@ -92,7 +96,7 @@ theorem toMarrow_readable (ext : Ext) (fields : List Field) (rows : List SVal) (
       Read.new Read.Fixes.all a = .ok () ∧ Read.vlen a = rows.length ∧
       (∀ i lv, decodeAt a i = .ok lv → Read.utf8Ok lv = true) ∧
       (physFreeDT f.dataType = true → Read.physical a = true) := by
-  obtain ⟨hlen, hwf⟩ := C03_wf ext fields rows arrs hschema hsafe hext hrows h
+  obtain ⟨hlen, hwf⟩ := Props.C01.C03_wf' ext fields rows arrs hschema hsafe hext hrows h
   refine ⟨hlen, ?_⟩
   intro j f a hf ha
   obtain ⟨hw, hl⟩ := hwf j f a hf ha
@@ -122,7 +126,6 @@ Dictionary columns, where `physical` is not derived).  PARTIAL: `hphys` remains.
 theorem toMarrow_readAny_partial (ext : Ext) (fields : List Field) (rows : List SVal) (arrs : List Arr)
     (hschema : ∀ f ∈ fields, Lemmas.C03.SchemaOKF f)
     (hcov : fields.all Build.coveredF = true)
-    (hsafe : ∀ root0, newRoot fields = .ok root0 → Safe root0)
     (hraw : ∀ x ∈ rows, Build.noRaw x = true)
     (hext : Lemmas.C03.ExtOK ext)
     (hrows : ∀ x ∈ rows, Lemmas.C03.SValOK x)
@@ -137,8 +140,8 @@ theorem toMarrow_readAny_partial (ext : Ext) (fields : List Field) (rows : List 
       ∀ (j : Nat) (hj : j < arrs.length) (i : Nat), i < rows.length →
         ∃ lv, (cols[j]?.map (·.2[i]?)) = some (some lv) ∧
           Read.readAny Read.Fixes.all arrs[j] i = .ok (Read.toD arrs[j] lv) := by
-  obtain ⟨hlen, cols, hc1, hc2, hc3, hc4⟩ := Props.C01.C01_build_decode ext fields rows arrs hschema hcov hsafe (fun x hx => Build.noRaw_ssa x (hraw x hx)) (Or.inl hraw) h
-  obtain ⟨_, hrd⟩ := toMarrow_readable ext fields rows arrs hschema hsafe hext hrows hread h
+  obtain ⟨hlen, cols, hc1, hc2, hc3, hc4⟩ := Props.C01.C01_build_decode' ext fields rows arrs hschema hcov (fun x hx => Build.noRaw_ssa x (hraw x hx)) (Or.inl hraw) h
+  obtain ⟨_, hrd⟩ := toMarrow_readable ext fields rows arrs hschema (Or.inr hcov) hext hrows hread h
   have hcl : cols.length = arrs.length := by
     have := congrArg List.length hc1; simpa using this.symm
   refine ⟨hlen, cols, hcl, hc2, hc4, ?_⟩
@@ -152,12 +155,12 @@ theorem toMarrow_readAny_partial (ext : Ext) (fields : List Field) (rows : List 
 /-- every array is `physical` when no field has a FixedSizeList / Dictionary -/
 theorem toMarrow_physical_partial (ext : Ext) (fields : List Field) (rows : List SVal) (arrs : List Arr)
     (hschema : ∀ f ∈ fields, Lemmas.C03.SchemaOKF f)
-    (hsafe : ∀ root0, newRoot fields = .ok root0 → Safe root0)
+    (hsafe : (∀ root0, newRoot fields = .ok root0 → Safe root0) ∨ fields.all Build.coveredF = true)
     (hext : Lemmas.C03.ExtOK ext)
     (hrows : ∀ x ∈ rows, Lemmas.C03.SValOK x)
     (hfree : ∀ f ∈ fields, physFreeDT f.dataType = true)
     (h : toMarrow ext fields rows = .ok arrs) : ∀ a ∈ arrs, Read.physical a = true := by
-  obtain ⟨hlen, hwf⟩ := C03_wf ext fields rows arrs hschema hsafe hext hrows h
+  obtain ⟨hlen, hwf⟩ := Props.C01.C03_wf' ext fields rows arrs hschema hsafe hext hrows h
   intro a ha
   obtain ⟨j, hj, rfl⟩ := List.getElem_of_mem ha
   have hjf : j < fields.length := by omega
@@ -167,14 +170,13 @@ theorem toMarrow_physical_partial (ext : Ext) (fields : List Field) (rows : List
 /-- **`toMarrow_readAny`** — reading back what was built gives the documented value of the input.  Whenever `to_marrow`
 returns arrays, slot `i` of array `j`, read with `deserialize_any`, is the `toD` rendering of the `j`-th field of
 `interpRow ext fields rows[i]` (`cols`: the decoded columns of `C01_build_decode`).  NO reader-side hypothesis: the
-hypotheses are those of `C01_build_decode` and `C03_wf` (schema: `SchemaOKF`, `coveredF`, `Safe`; rows: `noRaw`, `SValOK`;
-`ExtOK`), plus the two schema conditions of this file — `readableDT` (types the reader supports) and `physFreeDT` (no
+hypotheses are those of `C01_build_decode'` and `C03_wf'` (schema: `SchemaOKF`, `coveredF` — NO `Safe`; rows: `noRaw`,
+`SValOK`; `ExtOK`), plus the two schema conditions of this file — `readableDT` (types the reader supports) and `physFreeDT` (no
 FixedSizeList / Dictionary: the part of `Read.physical` that is derived; `toMarrow_readAny_partial` is the statement for
 all readable schemas with `physical` as a hypothesis). -/
 theorem toMarrow_readAny (ext : Ext) (fields : List Field) (rows : List SVal) (arrs : List Arr)
     (hschema : ∀ f ∈ fields, Lemmas.C03.SchemaOKF f)
     (hcov : fields.all Build.coveredF = true)
-    (hsafe : ∀ root0, newRoot fields = .ok root0 → Safe root0)
     (hraw : ∀ x ∈ rows, Build.noRaw x = true)
     (hext : Lemmas.C03.ExtOK ext)
     (hrows : ∀ x ∈ rows, Lemmas.C03.SValOK x)
@@ -189,8 +191,8 @@ theorem toMarrow_readAny (ext : Ext) (fields : List Field) (rows : List SVal) (a
       ∀ (j : Nat) (hj : j < arrs.length) (i : Nat), i < rows.length →
         ∃ lv, (cols[j]?.map (·.2[i]?)) = some (some lv) ∧
           Read.readAny Read.Fixes.all arrs[j] i = .ok (Read.toD arrs[j] lv) :=
-  toMarrow_readAny_partial ext fields rows arrs hschema hcov hsafe hraw hext hrows hread
-    (toMarrow_physical_partial ext fields rows arrs hschema hsafe hext hrows hfree h) h
+  toMarrow_readAny_partial ext fields rows arrs hschema hcov hraw hext hrows hread
+    (toMarrow_physical_partial ext fields rows arrs hschema (Or.inr hcov) hext hrows hfree h) h
 
 /-! ### the record level: `Deserializer::from_marrow(fields, arrays)` + item `i` -/
 
@@ -203,7 +205,6 @@ theorem readableFs_ofList : ∀ (l : List Field), (∀ f ∈ l, readableF f = tr
 theorem toMarrow_readRecord_partial (ext : Ext) (fields : List Field) (rows : List SVal) (arrs : List Arr)
     (hschema : ∀ f ∈ fields, Lemmas.C03.SchemaOKF f)
     (hcov : fields.all Build.coveredF = true)
-    (hsafe : ∀ root0, newRoot fields = .ok root0 → Safe root0)
     (hraw : ∀ x ∈ rows, Build.noRaw x = true)
     (hext : Lemmas.C03.ExtOK ext)
     (hrows : ∀ x ∈ rows, Lemmas.C03.SValOK x)
@@ -215,8 +216,8 @@ theorem toMarrow_readRecord_partial (ext : Ext) (fields : List Field) (rows : Li
     Read.new Read.Fixes.all (Roundtrip.rootArr fields arrs rows.length) = .ok () ∧
     ∀ (i : Nat) (hi : i < rows.length), ∃ lv, interpRow ext fields rows[i] = .ok lv ∧
       Roundtrip.readRecord .any fields arrs i = .ok (Read.toD (Roundtrip.rootArr fields arrs rows.length) lv) := by
-  obtain ⟨hlen, cols, hc1, hc2, hc3, hc4⟩ := Props.C01.C01_build_decode ext fields rows arrs hschema hcov hsafe (fun x hx => Build.noRaw_ssa x (hraw x hx)) (Or.inl hraw) h
-  obtain ⟨_, hwf⟩ := C03_wf ext fields rows arrs hschema hsafe hext hrows h
+  obtain ⟨hlen, cols, hc1, hc2, hc3, hc4⟩ := Props.C01.C01_build_decode' ext fields rows arrs hschema hcov (fun x hx => Build.noRaw_ssa x (hraw x hx)) (Or.inl hraw) h
+  obtain ⟨_, hwf⟩ := Props.C01.C03_wf' ext fields rows arrs hschema (Or.inr hcov) hext hrows h
   have hcols : Spec.wfFields (Fields.ofList fields) (Roundtrip.zipCols fields arrs) rows.length = true :=
     Roundtrip.zip_wf rows.length fields arrs hlen hwf
   have hnewF : Read.newFields Read.Fixes.all (Roundtrip.zipCols fields arrs) = .ok () :=
@@ -264,7 +265,6 @@ known (the root reader parses it); `physFreeDT` as in `toMarrow_readAny`. -/
 theorem toMarrow_readRecord (ext : Ext) (fields : List Field) (rows : List SVal) (arrs : List Arr)
     (hschema : ∀ f ∈ fields, Lemmas.C03.SchemaOKF f)
     (hcov : fields.all Build.coveredF = true)
-    (hsafe : ∀ root0, newRoot fields = .ok root0 → Safe root0)
     (hraw : ∀ x ∈ rows, Build.noRaw x = true)
     (hext : Lemmas.C03.ExtOK ext)
     (hrows : ∀ x ∈ rows, Lemmas.C03.SValOK x)
@@ -276,8 +276,8 @@ theorem toMarrow_readRecord (ext : Ext) (fields : List Field) (rows : List SVal)
     Read.new Read.Fixes.all (Roundtrip.rootArr fields arrs rows.length) = .ok () ∧
     ∀ (i : Nat) (hi : i < rows.length), ∃ lv, interpRow ext fields rows[i] = .ok lv ∧
       Roundtrip.readRecord .any fields arrs i = .ok (Read.toD (Roundtrip.rootArr fields arrs rows.length) lv) :=
-  toMarrow_readRecord_partial ext fields rows arrs hschema hcov hsafe hraw hext hrows hread hne
-    (toMarrow_physical_partial ext fields rows arrs hschema hsafe hext hrows hfree h) h
+  toMarrow_readRecord_partial ext fields rows arrs hschema hcov hraw hext hrows hread hne
+    (toMarrow_physical_partial ext fields rows arrs hschema (Or.inr hcov) hext hrows hfree h) h
 
 /-! ### non-vacuity -/
 
@@ -321,14 +321,6 @@ example : ∀ arrs, toMarrow {} exFields exRows = .ok arrs →
   intro arrs h
   have hschema : ∀ f ∈ exFields, Lemmas.C03.SchemaOKF f := by
     simp [exFields, Lemmas.C03.SchemaOKF, Lemmas.C03.SchemaOK]
-  have hsafe : ∀ root0, newRoot exFields = .ok root0 → Safe root0 := by
-    intro root0 h0
-    rw [show newRoot exFields = .ok (.struct "$" 0 none
-      (.cons (.leaf "$.a" (.int .i32) (some []) []) ⟨"a", true, []⟩
-        (.cons (.list "$.l" false ⟨"element", false, []⟩ none [0] (.leaf "$.l.element" (.int .i8) none []))
-          ⟨"l", false, []⟩ .nil)) [none, none] 0 [false, false]) from by decide] at h0
-    cases h0
-    simp [Safe, SafeL]
   have hext : Lemmas.C03.ExtOK {} := by constructor <;> (intros; rename_i h; cases h)
   have hrows : ∀ x ∈ exRows, Lemmas.C03.SValOK x := by
     simp [exRows, Lemmas.C03.SValOK, Lemmas.C03.SFieldsOK, Lemmas.C03.SValsOK, Lemmas.C03.ScalarOK, IntTy.inRange,
@@ -337,10 +329,29 @@ example : ∀ arrs, toMarrow {} exFields exRows = .ok arrs →
   have hraw : ∀ x ∈ exRows, Build.noRaw x = true := by decide
   have hread : ∀ f ∈ exFields, readableF f = true := by decide
   have hfree : ∀ f ∈ exFields, physFreeDT f.dataType = true := by decide
-  obtain ⟨h1, _, h3⟩ := toMarrow_readRecord {} exFields exRows arrs hschema hcov hsafe hraw hext hrows hread hfree
+  obtain ⟨h1, _, h3⟩ := toMarrow_readRecord {} exFields exRows arrs hschema hcov hraw hext hrows hread hfree
     (by simp [exFields]) h
-  obtain ⟨_, cols, hc, _, _, h4⟩ := toMarrow_readAny {} exFields exRows arrs hschema hcov hsafe hraw hext hrows
+  obtain ⟨_, cols, hc, _, _, h4⟩ := toMarrow_readAny {} exFields exRows arrs hschema hcov hraw hext hrows
     (fun f hf => Lemmas.C03.readableDT_of_F (hread f hf)) hfree h
   exact ⟨h1, h3, cols, hc, h4⟩
+
+/-- `toMarrow_readAny_partial` on the schema OUTSIDE `Safe` of Props/C01Obs.lean (`{s: Struct{d: Dictionary(UInt8, Utf8)}?}`,
+records `None`, `{d: "a"}`, `None`: `Props.C01.exUnsafe_not_safe`): every hypothesis discharged, the physical size of the
+built arrays computed -/
+example : ∀ arrs, toMarrow {} Props.C01.exUnsafeFields Props.C01.exUnsafeRows = .ok arrs → (∀ a ∈ arrs, Read.physical a = true) →
+    ∃ cols : List (String × List LVal), cols.length = arrs.length ∧
+      ∀ (j : Nat) (hj : j < arrs.length) (i : Nat), i < Props.C01.exUnsafeRows.length →
+        ∃ lv, (cols[j]?.map (·.2[i]?)) = some (some lv) ∧
+          Read.readAny Read.Fixes.all arrs[j] i = .ok (Read.toD arrs[j] lv) := by
+  intro arrs h hphys
+  have hext : Lemmas.C03.ExtOK {} := by constructor <;> (intros; rename_i h; cases h)
+  obtain ⟨_, cols, hc, _, _, h4⟩ := toMarrow_readAny_partial {} Props.C01.exUnsafeFields Props.C01.exUnsafeRows arrs
+    (by simp [Props.C01.exUnsafeFields, Lemmas.C03.SchemaOKF, Lemmas.C03.SchemaOK, Lemmas.C03.SchemaOKFs]) (by decide) (by decide) hext
+    (by
+      intro x hx
+      simp only [Props.C01.exUnsafeRows, List.mem_cons, List.not_mem_nil, or_false] at hx
+      rcases hx with rfl | rfl | rfl <;> simp [Lemmas.C03.SValOK, Lemmas.C03.SFieldsOK])
+    (by decide) hphys h
+  exact ⟨cols, hc, h4⟩
 
 end SaModel.Props.C03
